@@ -199,11 +199,25 @@ def known_dict(e, vt, d):
     return '{%s}' % ', '.join('%s: %s' % (k, gen(e, vt, max(0, d - 2))) for k in ks), ks
 
 
+RX_PATTERNS = ['"[a-z]+"', '"[A-Z]"', '"l+"', '"(l+)(o)"', '"^w"', '"o$"', '"^l"', '"."', '"a.c"', '"hello"', '"HELLO"', '"\\\\d+"', '"x|y"', '"(a)(b)?"', '"W.*d"', '"e.l"', '"^\\\\w+$"', '"QQQ"']
+RX_FLAGS = ['', '', '', ', "i"', ', "I"', ', "m"', ', "s"', ', "im"', ', "MS"', ', "x"', ', ""', ', "ims"']
+
+
+def regex_call(e, d):
+    """match / match_groups / match_all over patterns on which `re` and `regex` agree, with every flag letter the language knows (case, multi-line, dot-all) -
+    subjects include mixed case and a line break, so that each flag changes some outcome"""
+    r = e.r
+    subj = r.choice(['"Hello World"', '"hello\\nworld"', '"line1\\nLINE2"', '"abc ABC"', gen_str(e, max(0, d - 2))])
+    return '%s(%s, %s%s)' % (r.choice(['match', 'match_groups', 'match_all']), subj, r.choice(RX_PATTERNS), r.choice(RX_FLAGS))
+
+
 def gen_str(e, d):
     r = e.r
     if d <= 0:
         return var_or(e, 'str', lambda: r.choice(STRS))
-    c = r.randrange(16)
+    c = r.randrange(17)
+    if c == 16:
+        return 'str(%s)' % regex_call(e, d)
     if c < 2:
         return var_or(e, 'str', lambda: r.choice(STRS))
     if c < 5:
